@@ -215,3 +215,53 @@ Definition viewer_report_check (u : upload_cfg) (p : ident * body) (s : vsummary
      (if forallb (fun k => approved_stackb u prog k || memb (stack_title k) (summary_names s)) stacks
       then [] else [AViewerReportStackOmitted])
    else []).
+
+(* ---------------------------------------------------------------- sequences of requests *)
+
+(* The upload handler decodes every request body into a fresh report and
+   validates it: the answer to a request depends on that request only. *)
+Definition serve_sequence (c : config) (reqs : list (bool * report)) : list N :=
+  map (fun r => server_status (server_validate c (fst r) (snd r))) reqs.
+
+(* The viewer's index page for /?config=<version>: configAt resolves the
+   version on every request ("" and "latest": the newest version of the
+   store, "empty": the empty configuration, a version that cannot be loaded:
+   the empty configuration), then every count file of the directory is
+   summarised under that configuration. *)
+Definition empty_cfg : upload_cfg := mkUC [] [] [] 0 [].
+Definition store := list (bytes * upload_cfg).   (* oldest first *)
+Definition v_latest : bytes := [108; 97; 116; 101; 115; 116].   (* "latest" *)
+Definition v_empty : bytes := [101; 109; 112; 116; 121].          (* "empty" *)
+
+Definition config_at (st : store) (reachable : bool) (version : bytes) : upload_cfg :=
+  if beq version [] || beq version v_latest then
+    (if reachable then match rev st with (_, u) :: _ => u | [] => empty_cfg end else empty_cfg)
+  else if beq version v_empty then empty_cfg
+  else if reachable then match aget beq version st with Some u => u | None => empty_cfg end
+  else empty_cfg.
+
+Definition viewer_page (u : upload_cfg) (files : list cfile) : list vsummary :=
+  map (viewer_summary (new_config u)) files.
+
+(* one Server answering a sequence of requests (proxy reachable?, version) *)
+Definition viewer_pages (st : store) (files : list cfile) (reqs : list (bool * bytes)) : list (list vsummary) :=
+  map (fun r => viewer_page (config_at st (fst r) (snd r)) files) reqs.
+
+(* oracle on one summary of a page rendered for configuration u *)
+Definition viewer_summary_check (u : upload_cfg) (f : cfile) (s : vsummary) : list aclass :=
+  let i := f_ident f in
+  let prog := id_program i in
+  let approved := approved_buildb u i in
+  (if Bool.eqb (summary_excludes_set s) (negb approved) then [] else [AViewerSet]) ++
+  (if approved then
+     match s with
+     | SCounters l =>
+         if forallb (fun n => existsb (fun kv : bytes * N => beq (display_name (fst kv)) n &&
+                                                    negb (approved_itemb u prog (fst kv))) (f_counts f)) l &&
+            forallb (fun kv : bytes * N => approved_itemb u prog (fst kv) || memb (display_name (fst kv)) l) (f_counts f)
+         then [] else [AViewerCounter]
+     | SClean => if forallb (fun kv : bytes * N => approved_itemb u prog (fst kv)) (f_counts f)
+                 then [] else [AViewerCounter]
+     | _ => []
+     end
+   else []).
